@@ -56,6 +56,7 @@ type Out struct {
 	MaxInstrs  int
 	Sources    map[string]map[string]string
 	LoadErrors []string
+	Crashes    []string // "<item> <mode>: <panic message>" (only with -serial)
 }
 
 func main() {
@@ -63,6 +64,7 @@ func main() {
 	out := flag.String("out", "", "output JSON")
 	seed := flag.Uint64("seed", 1, "seed")
 	tier := flag.String("tier", "quick", "quick|thorough")
+	serial := flag.Bool("serial", false, "fallback after a builder crash: add BuildSerially to every mode and recover from panics per (item, mode), recording them in Crashes")
 	only := flag.String("only", "", "restrict to one corpus item (replay)")
 	repoFlag := flag.String("repo", "", "comma separated repository package patterns overriding the tier's list (exploration)")
 	noGen := flag.Bool("nogen", false, "skip generated and testdata corpora (exploration)")
@@ -136,7 +138,22 @@ func main() {
 		}
 		for _, m := range modes {
 			hx.WriteFile(*work+"/progress.txt", it.Name+" "+hx.ModeLetters(m)+"\n")
-			prog, fns := hx.BuildFunctions(it.Pkgs, m)
+			if *serial {
+				m |= ir.BuildSerially
+			}
+			var prog *ir.Program
+			var fns []*ir.Function
+			func() {
+				if *serial {
+					defer func() {
+						if r := recover(); r != nil {
+							res.Crashes = append(res.Crashes, fmt.Sprintf("%s %s: %v", it.Name, hx.ModeLetters(m), r))
+							fns = nil
+						}
+					}()
+				}
+				prog, fns = hx.BuildFunctions(it.Pkgs, m)
+			}()
 			tt := hx.NewTypeTable()
 			type pending struct {
 				c *Case
